@@ -41,6 +41,18 @@ type Prog struct {
 	extraOverlay map[string][]byte
 	bigConsts    map[string]string
 	readonlyArgs []string
+	freshResult  []string
+	externs      map[string][]*FuncContract // assumed contracts on dependencies, by qualified name
+}
+
+// isFreshResult: constructors declared (directive fresh-result) to return a newly allocated object.
+func (p *Prog) isFreshResult(name string) bool {
+	for _, s := range p.freshResult {
+		if strings.Contains(name, s) {
+			return true
+		}
+	}
+	return false
 }
 
 func (p *Prog) isReadonlyArgs(name string) bool {
@@ -162,6 +174,12 @@ func LoadProg(pkgDirs []string, extraOverlay map[string][]byte) (*Prog, error) {
 		p.files = append(p.files, cf)
 		for _, f := range cf.Funcs {
 			p.contracts[path+"#"+f.Key] = f
+			if f.Extern {
+				if p.externs == nil {
+					p.externs = map[string][]*FuncContract{}
+				}
+				p.externs[f.ExternName] = append(p.externs[f.ExternName], f)
+			}
 		}
 		for _, pf := range cf.Pures {
 			p.pures[path+"."+pf.Name] = pf
@@ -174,6 +192,8 @@ func LoadProg(pkgDirs []string, extraOverlay map[string][]byte) (*Prog, error) {
 				p.pureObs = append(p.pureObs, dr.Arg)
 			case "readonly-args":
 				p.readonlyArgs = append(p.readonlyArgs, dr.Arg)
+			case "fresh-result":
+				p.freshResult = append(p.freshResult, dr.Arg)
 			case "bigconst":
 				// directive bigconst <var> <value>: package-level *big.Int holding a constant
 				fs := strings.Fields(dr.Arg)
@@ -328,7 +348,7 @@ func (p *Prog) effectFree(fn *ssa.Function, depth int) bool {
 				if _, ok := in.Call.Value.(*ssa.Builtin); ok {
 					continue
 				}
-				if tmp.isNoEffect(name) {
+				if tmp.isNoEffect(name) || p.isPureObserver(name) {
 					continue
 				}
 				if strings.Contains(name, "tracing.") || strings.Contains(name, "Hooks") {
